@@ -51,6 +51,9 @@ type flWorld struct {
 	sizeSeen [flMaxThr][flMaxOps]int32
 	npop     [flMaxThr]int
 	npush    [flMaxThr]int
+	forcePop bool
+	jsel     [flMaxThr][flMaxOps]uint8  // which held slice a recycle step returns (symbolic, drawn up front)
+	sigs     [flMaxThr][flMaxOps]uint32 // payload signature written by the holder (symbolic, drawn up front)
 }
 
 func flSetup(n int, free int) *flWorld {
@@ -116,6 +119,14 @@ func flSetup(n int, free int) *flWorld {
 	*a.size = int32(free)
 	*a.head = w.perm[0]
 	*a.tail = w.perm[free-1]
+	// the symbolic choices of the operations are drawn here, in a fixed order, so that a native
+	// replay consumes the input vector in the same order as the symbolic run created it
+	for t := 0; t < flMaxThr; t++ {
+		for k := 0; k < flMaxOps; k++ {
+			w.jsel[t][k] = vfU8()
+			w.sigs[t][k] = vfU32()
+		}
+	}
 	return w
 }
 
@@ -124,7 +135,7 @@ func (w *flWorld) step(t, k int, l *bufferList) {
 	op := &w.ops[t][k]
 	// the operation kind is a shape variable (concrete per case); sequences that recycle more
 	// than they allocated are not part of the space
-	isPop := vfShape("op", 0, 1) == 1
+	isPop := w.forcePop || vfShape("op", 0, 1) == 1
 	if isPop {
 		w.npop[t]++
 	} else {
@@ -158,14 +169,14 @@ func (w *flWorld) step(t, k int, l *bufferList) {
 		*w.nheld = *w.nheld + 1
 		vfAtomicEnd()
 		// the holder uses its buffer: payload signature, header fields
-		sig := vfU32()
+		sig := w.sigs[t][k]
 		*(*uint32)(unsafe.Pointer(&s.data[0])) = sig
 		w.heldSig[t][k] = sig
 		w.held[t][k] = s
 		return
 	}
 	// recycle one of the slices this thread holds
-	j := int(vfU8())
+	j := int(w.jsel[t][k])
 	vfAssume(j < k)
 	s := w.held[t][j]
 	vfAssume(s != nil)
@@ -366,6 +377,39 @@ func flStallCut(prop string) {
 
 func H_C01_stallcut() { flStallCut("C01") }
 func H_C02_stallcut() { flStallCut("C02") }
+
+// family "hook" (sequential): the victim's single allocation runs on the real memory; after
+// exactly `cut` of its accesses to the list's memory (cut = shape, every position) the adversary
+// runs its K operations to completion, then the victim continues. Same scenario as "stall", but
+// the interleaving point is case-split instead of solver-chosen, so everything folds and adversaries
+// of 6-7 operations are cheap. What stays symbolic: which held slice is recycled, stale fields,
+// payloads.
+func flHook(prop string) {
+	n := vfShape("slots", 2, flMaxN)
+	free := vfShape("free", 1, n)
+	K := vfShape("advops", 1, 7)
+	cut := vfShape("cut", 0, 16)
+	w := flSetup(n, free)
+	vfInfeasibleOK() // operation sequences whose recycles have nothing to recycle, cuts beyond the victim's accesses
+	ran := false
+	vfStallHook(w.mem, cut, func() {
+		ran = true
+		w.forcePop = false
+		for k := 0; k < K; k++ {
+			w.step(1, k, w.views[1])
+		}
+		w.forcePop = true
+	})
+	w.forcePop = true
+	w.step(0, 0, w.views[0])
+	w.forcePop = false
+	vfStallHookOff()
+	vfAssume(ran) // a cut beyond the victim's accesses is not a stall
+	w.check(2, K, prop)
+}
+
+func H_C01_hook() { flHook("C01") }
+func H_C02_hook() { flHook("C02") }
 
 // family "sym": T threads x k symbolic operations each.
 func flSym(prop string) {
